@@ -82,6 +82,14 @@ def proc(e):
     return {"a": np.asarray([v + 100000], np.int32)}
 
 
+def proc_inplace(e):
+    """A per-example transformation in the common 'update in place and return it' style."""
+    v = val(e)
+    CALLS.append(v)
+    e["a"] = np.asarray([v + 100000], np.int32)
+    return e
+
+
 def iterate(root, r):
     ds = Dataset(root)
     if r.get("passes"):
@@ -178,7 +186,7 @@ def iterate_ds(ds, r):
     if r.get("filter") is not None:
         kw["shard_filter"] = mk_filter(r["filter"])
     if r.get("process"):
-        kw["process_record"] = proc
+        kw["process_record"] = proc_inplace if r.get("inplace") else proc
     iface = r["iface"]
     take = r.get("take")
     out = []
